@@ -99,3 +99,19 @@ Theorem src_written_view_is_model :
   forall w, fetch (f_bytes w) (seval (fenv w None 0) gen_wview_off) (seval (fenv w None 0) gen_wview_size) = fbw_view w.
 Proof. exact FactsCheck.src_written_view_is_model. Qed.
 Print Assumptions src_written_view_is_model.
+
+(* the CLOSED list of stream operators of DataStreaming.h *)
+Theorem src_overload_set_closed : gen_overloads = exp_overloads.
+Proof. exact FactsCheck.src_overload_set_closed. Qed.
+Print Assumptions src_overload_set_closed.
+
+(* overload selection per (stream static type, value kind), first operand of a chain: the selected
+   overload issues the chunks of encode / computes get; all 4 x 8 + 2 x 5 pairs are covered *)
+Theorem src_overload_selection :
+  (forall s k o, In (s, k, o) gen_selection -> (s <= 4)%N ->
+     forall v, kind_value k v = true -> ovl_chunks o v = Some (chunks v)) /\
+  (forall s k o, In (s, k, o) gen_selection -> (5 <= s)%N ->
+     forall sh r, kind_shape k sh = true -> ovl_get o sh r = Some (get sh r)) /\
+  map (fun t => fst t) gen_selection = map (fun t => fst t) exp_selection.
+Proof. exact FactsCheck.src_overload_selection. Qed.
+Print Assumptions src_overload_selection.
